@@ -131,6 +131,10 @@ inductive OTy
   | listStr
   | dict
   | uri (fl : UriFlags)
+  /-- `type(v) != str` → ProtocolError, then `check_or_raise_uri(v)` (InvalidUriError); `nullOk`: read with
+  `details.get(k)` and `None` passes (WELCOME.realm), else an explicit `None` is a ProtocolError (EVENT.topic,
+  INVOCATION.procedure) -/
+  | strUri (nullOk : Bool)
   /-- `itemsAtParse` = the `for … break … valid = True` loop has been repaired to `for/else` (regenerated
   from the source on every run); today `false`: any list passes `parse` -/
   | forwardFor (itemsAtParse : Bool)
@@ -243,6 +247,9 @@ def OTy.check (O : Oracles) (site : Str) : OTy → WVal → R
   | .dict, .dictNS kvs => .ok (.dictNS kvs)
   | .dict, _ => fail .protocol site
   | .uri fl, v => checkUri O fl site v
+  | .strUri n, .null => if n then .ok .null else fail .protocol site
+  | .strUri _, .str s => checkUri O {} site (.str s)
+  | .strUri _, _ => fail .protocol site
   | .forwardFor atParse, .list xs =>
       if atParse && !(xs.all ffItemParseOk) then fail .protocol site else .ok (.list xs)
   | .forwardFor _, _ => fail .protocol site
